@@ -8,6 +8,7 @@ import TboxModel.C11.Model
 import TboxModel.C11.Arena
 import TboxModel.C11.Vars
 import TboxModel.C11.Backend
+import TboxModel.C11.Names
 open Tbox.Util Tbox.C11
 
 def evStr : Ev → String
@@ -265,6 +266,122 @@ def step (a : AState) (v : VStore) (ws : List String) : Option (VStore × List S
   | _ => none
 end VOps
 
+
+/-! ### names, addAs and the configuration object (`k…` ops, TboxModel/C11/Names.lean) -/
+namespace KOps
+open Tbox.C11.Names
+
+structure KState where
+  σ : KStore := {}
+  ids : List Nat := []
+  cfg : J := .null
+
+def nameTokens : List String := ["-", "#", "a", "b", "c", "children", "required", "vars"]
+def name? (w : String) : Option Nat := nameTokens.idxOf? w
+def path? (w : String) : Option (List Nat) := (w.splitOn "/").mapM name?
+def names? : List String → Option (List Nat) := fun ws => ws.mapM name?
+
+def kevStr : KEv → String
+  | .init n m => "i" ++ toString n ++ "+" ++ (match m with | some v => toString v | none => "?")
+  | .cleanup n => "c" ++ toString n
+
+def alive (k : KState) : List Nat := (k.ids.filter fun n => (k.σ.get n).alive).mergeSort (· ≤ ·)
+
+def stStr (k : KState) : String :=
+  let l := alive k
+  if l.isEmpty then "-" else ",".intercalate (l.map fun n => toString n ++ ":" ++ (if (k.σ.get n).st then "I" else "N"))
+
+def nmStr (k : KState) : String :=
+  let l := alive k
+  if l.isEmpty then "-" else ",".intercalate (l.map fun n => toString n ++ ":" ++ nameTokens.getD (k.σ.get n).name "?")
+
+def trStr (tr : List KEv) : String := if tr.isEmpty then "-" else ",".intercalate (tr.map kevStr)
+
+def rline (k : KState) (ret : String) (tr : List KEv) : String :=
+  "P ret=" ++ ret ++ " tr=" ++ trStr tr ++ " st=" ++ stStr k ++ " nm=" ++ nmStr k
+
+def b01 (b : Bool) : String := if b then "1" else "0"
+
+def isRoot (k : KState) (n : Nat) : Bool := (k.σ.get n).alive && !(k.σ.get n).hasParent
+
+def step (k : KState) (ws : List String) : Option (KState × List String) :=
+  match ws with
+  | ["knew", n, nm] => do
+      let n ← id? n; let nm ← name? nm
+      if (k.σ.get n).alive then none
+      else
+        let k' : KState := { k with σ := k.σ.set n { alive := true, name := nm }, ids := k.ids ++ [n] }
+        pure (k', ["B knew", rline k' "1" []])
+  | "kwr" :: n :: keys => do
+      let n ← id? n; let keys ← names? keys
+      if !(k.σ.get n).alive || keys.contains 0 then none
+      else
+        let k' : KState := { k with σ := k.σ.set n { k.σ.get n with writes := keys } }
+        pure (k', ["B kwr", rline k' "1" []])
+  | ["kadd", p, c, r] => do
+      let p ← id? p; let c ← id? c; let r ← bool? r
+      if !(k.σ.get p).alive || !(k.σ.get c).alive then none
+      else
+        let res := addK k.σ p c r
+        let k' : KState := { k with σ := res.1 }
+        pure (k', ["B kadd-" ++ (if res.2 then "ok" else if dupName k.σ (k.σ.get p).kids (k.σ.get c).name then "dup" else "refused"),
+                   rline k' (b01 res.2) []])
+  | ["kaddas", p, c, nm, r] => do
+      let p ← id? p; let c ← id? c; let nm ← name? nm; let r ← bool? r
+      if !(k.σ.get p).alive || !(k.σ.get c).alive then none
+      else
+        let res := addAsK k.σ p c nm r
+        let k' : KState := { k with σ := res.1 }
+        pure (k', ["B kaddas-" ++ (if res.2 then "ok" else if dupName k.σ (k.σ.get p).kids nm then "dup" else "refused"),
+                   rline k' (b01 res.2) []])
+  | ["knull", p, nm, r] => do
+      let p ← id? p; let _ ← name? nm; let _ ← bool? r
+      if !(k.σ.get p).alive then none
+      else match addAsNull true k.σ with
+        | some res => pure ({ k with σ := res.1 }, ["B knull", rline k (b01 res.2) []])
+        | none => none
+  | ["kcfg"] => pure ({ k with cfg := .null }, ["B kcfg", "P cfg"])
+  | ["kput", path, v] => do
+      let path ← path?  path
+      let v ← (match v with | "n" => some (J.num 7) | "o" => some (J.obj []) | "z" => some J.null | _ => none)
+      if path.contains 0 then none
+      else match putPath k.cfg path v with
+        | some j => pure ({ k with cfg := j }, ["B kput", "P ret=1"])
+        | none => pure ({ k with cfg := .null }, ["B kput-throws", "P ret=X"])
+  | ["kdel", path] => do
+      let path ← path? path
+      if path.contains 0 then none
+      else pure ({ k with cfg := delPath k.cfg path }, ["B kdel", "P ret=1"])
+  | [op, n] => do
+      let n ← id? n
+      if !isRoot k n then none
+      else match op with
+        | "kfill" =>
+          match fill fuelK k.σ n k.cfg with
+          | some j => pure ({ k with cfg := j }, ["B kfill", "P ret=1"])
+          | none => pure ({ k with cfg := .null }, ["B kfill-throws", "P ret=X"])
+        | "kinit" =>
+          let r := kInit fuelK k.σ n k.cfg
+          let k' : KState := { k with σ := r.1 }
+          let ms := r.2.2.filterMap fun e => match e with | .init m (some v) => some (m, v) | _ => none
+          let shared := ms.any fun a => ms.any fun b => a.1 != b.1 && a.2 == b.2
+          let foreign := r.2.2.any fun e => match e with | .init m v => v != some m && (k.σ.get m).name != 0 | _ => false
+          pure (k', ["B kinit-" ++ (if r.2.1 then "ok" else if r.2.2.isEmpty then "gated" else "rollback") ++
+                       (if shared then " kshared" else "") ++ (if foreign then " kforeign" else ""),
+                     rline k' (b01 r.2.1) r.2.2])
+        | "kcleanup" =>
+          let r := kCleanup fuelK k.σ n
+          let k' : KState := { k with σ := r.1 }
+          pure (k', ["B kcleanup", rline k' "1" r.2])
+        | "kdestroy" =>
+          let r := kDestroy fuelK k.σ n
+          let k' : KState := { k with σ := r.1 }
+          pure (k', ["B kdestroy" ++ (if r.2.isEmpty then "" else " kdestroy-emits"), rline k' "1" r.2])
+        | "kjson" => pure (k, ["B kjson", "P json=" ++ jsonStr fuelK k.σ n])
+        | _ => none
+  | _ => none
+end KOps
+
 /-- driver state: the forest (tree model; dropped once a hook script is installed), the arena,
 whether branch tags are switched off, whether the case is scripted -/
 structure DState where
@@ -276,6 +393,7 @@ structure DState where
   b : Option Backend.Rt := none          -- `_runtime` of run_in_backend.cpp
   dead : Bool := false                   -- the process died in an earlier Start()/Stop()
   sig : Option (Nat × Nat) := none       -- `raise <hook> <id>`: stop signal raised from inside that hook during Main()
+  k : KOps.KState := {}                  -- the names world (`k…` ops)
 
 
 /-! ### run_in_backend.cpp (`bstart` / `bstop`) and a stop signal during Main() (`raise`) -/
@@ -355,6 +473,10 @@ def stepLine (fx rb g x : Bool) (st0 : DState) (ln : String) : DState × List St
       match stepProc fx rb st ws with
       | none => (st, ["bad-op"])
       | some r => r
+    else if (ws.head?.map (·.startsWith "k")) == some true then
+      match KOps.step st.k ws with
+      | none => (st, ["bad-op"])
+      | some (k', ls) => ({ st with k := k' }, if st.quiet then ls.filter (fun l => !l.startsWith "B ") else ls)
     else if ws.head? == some "json" then
       -- `root->toJson(js)`: rendered from the arena (kept in step with the tree model in unscripted cases)
       match ws with
